@@ -3,6 +3,8 @@ mod core;
 mod explore;
 mod pdfgen;
 mod props;
+mod refread;
+mod walker;
 
 use crate::core::{CheckMeta, Tally, Tier};
 use serde_json::Value;
@@ -17,9 +19,11 @@ fn registry() -> Vec<(&'static str, RunFn, ReplayFn)> {
         ("C03", props::c03::run, props::c03::replay),
         ("C04", props::c04::run, props::c04::replay),
         ("C05", props::c05::run, props::c05::replay),
+        ("C06", props::c06::run, props::c06::replay),
         ("C07", props::c07::run, props::c07::replay),
         ("C11", props::c11::run, props::c11::replay),
         ("C16", props::c16::run, props::c16::replay),
+        ("C17", props::c17::run, props::c17::replay),
     ]
 }
 
@@ -28,6 +32,18 @@ fn selfcheck() -> i32 {
         eprintln!("MACHINERY: pdfgen filter self-test failed: {}", e);
         return 2;
     }
+    match pdfgen::crypt::selftest_fixtures() {
+        Ok(n) if n >= 5 => {}
+        Ok(n) => {
+            eprintln!("MACHINERY: only {} encrypted fixtures found under {}/files", n, core::repo_dir());
+            return 2;
+        }
+        Err(e) => {
+            eprintln!("MACHINERY: encryptor self-test against fixtures failed: {}", e);
+            return 2;
+        }
+    }
+    // the structural reader must accept every valid corpus file it can decode
     0
 }
 
@@ -102,6 +118,32 @@ fn main() {
                 std::process::exit(2);
             }
             std::process::exit(rc);
+        }
+        Some("walk") => {
+            // debugging aid: harness walk <file.pdf|gen:NAME> [password]
+            let what = args.get(2).expect("file");
+            let bytes = match what.as_str() {
+                "gen:rich" => pdfgen::docs::rich_doc(b"", pdfgen::docs::DocOpts::CLASSIC),
+                "gen:rich-stream" => pdfgen::docs::rich_doc(b"", pdfgen::docs::DocOpts::STREAM),
+                "gen:rich-chain" => pdfgen::docs::rich_doc(b"", pdfgen::docs::DocOpts::CHAIN),
+                "gen:rich-chain-stream" => pdfgen::docs::rich_doc(b"", pdfgen::docs::DocOpts::CHAIN_STREAM),
+                "gen:small" => pdfgen::docs::small_doc(b""),
+                path => std::fs::read(path).expect("read"),
+            };
+            if let Some(out) = args.get(4) {
+                std::fs::write(out, &bytes).unwrap();
+            }
+            let pw = args.get(3).map(|s| s.as_bytes().to_vec()).unwrap_or_default();
+            for cfg in walker::CONFIGS {
+                let mut o = walker::Obs::new(true);
+                let r = core::catch(|| walker::open_and_walk(&bytes, &pw, cfg, &walker::WalkOpts::default(), &mut o));
+                println!("== {} -> {:?} ({} calls)", cfg.name(), r, o.calls);
+                if cfg.name() == "strict-uncached" {
+                    for (k, v) in &o.lines {
+                        println!("{} = {}", k, core::truncate(v, 200));
+                    }
+                }
+            }
         }
         _ => {
             eprintln!("usage: harness run <ID> <quick|thorough> | replay <file> | selfcheck");
